@@ -35,6 +35,8 @@ type Param struct {
 	// Default: the schema in effect carries a default it accepts. A default stands in for an optional
 	// parameter that is not sent; it never stands in for a required one.
 	Default bool `json:"default,omitempty"`
+	// ByContent: every declaration of the parameter uses content (application/json) instead of schema
+	ByContent bool `json:"by_content,omitempty"`
 }
 
 type Case struct {
@@ -119,6 +121,10 @@ func build(c Case) (*openapi3.T, error) {
 				}
 			}
 			pm := M{"name": p.Name, "in": p.In, "schema": schema}
+			if p.ByContent {
+				// described by a media type instead of a style: the text is JSON
+				pm = M{"name": p.Name, "in": p.In, "content": M{"application/json": M{"schema": schema}}}
+			}
 			if p.Required {
 				pm["required"] = true
 			}
@@ -557,9 +563,9 @@ func enumerate(shard, nshards int, yield func(Case)) {
 				for _, s3 := range sends {
 					for _, body := range []string{"none", "valid", "invalid"} {
 						for opts := 0; opts < 8; opts++ {
-							emit(Case{Params: []Param{{in, "a", "path", s1, true, false}, {in, "b", "op", s2, false, false}, {in, "c", "both", s3, true, false}}, Body: body, Opts: opts, Auth: map[string]bool{}})
+							emit(Case{Params: []Param{{in, "a", "path", s1, true, false, false}, {in, "b", "op", s2, false, false, false}, {in, "c", "both", s3, true, false, false}}, Body: body, Opts: opts, Auth: map[string]bool{}})
 							// the same with a default on every declaration and defaults written into the request
-							emit(Case{Params: []Param{{in, "a", "path", s1, true, true}, {in, "b", "op", s2, false, true}, {in, "c", "both", s3, true, true}}, Body: body, Opts: opts, Auth: map[string]bool{}, SetDefaults: true})
+							emit(Case{Params: []Param{{in, "a", "path", s1, true, true, false}, {in, "b", "op", s2, false, true, false}, {in, "c", "both", s3, true, true, false}}, Body: body, Opts: opts, Auth: map[string]bool{}, SetDefaults: true})
 						}
 					}
 				}
@@ -573,8 +579,8 @@ func gen(t *rapid.T) Case {
 	n := rapid.IntRange(0, 5).Draw(t, "nparams")
 	seen := map[string]bool{}
 	for i := 0; i < n; i++ {
-		p := Param{In: rapid.SampledFrom([]string{"query", "header", "cookie"}).Draw(t, "in"), Name: rapid.SampledFrom([]string{"a", "b", "c", "d", "A", "B"}).Draw(t, "name"),
-			Level: rapid.SampledFrom([]string{"path", "op", "both"}).Draw(t, "level"), Send: rapid.SampledFrom([]string{"absent", "low", "high", "low", "high", "empty"}).Draw(t, "send"), Required: rapid.Bool().Draw(t, "required"), Default: rapid.IntRange(0, 2).Draw(t, "hasdefault") == 0}
+		p := Param{In: rapid.SampledFrom([]string{"query", "header", "cookie"}).Draw(t, "in"), Name: rapid.SampledFrom([]string{"a", "b", "c", "d", "A", "B", "X-Trace-ID", "x-page-info"}).Draw(t, "name"),
+			Level: rapid.SampledFrom([]string{"path", "op", "both"}).Draw(t, "level"), Send: rapid.SampledFrom([]string{"absent", "low", "high", "low", "high", "empty"}).Draw(t, "send"), Required: rapid.Bool().Draw(t, "required"), Default: rapid.IntRange(0, 2).Draw(t, "hasdefault") == 0, ByContent: rapid.IntRange(0, 3).Draw(t, "bycontent") == 0}
 		// names are case-sensitive outside headers: "A" next to "a" is another parameter
 		key := p.In + ":" + p.Name
 		if p.In == "header" {
